@@ -30,6 +30,33 @@ class Infra(Exception):
     """The machinery failed (never a verdict about golang/net)."""
 
 
+class RealCodeCrash(Exception):
+    """The test binary died with a panic / fatal error whose stack goes through non-test code of
+    golang.org/x/net: the code under test crashed the driver process."""
+
+    def __init__(self, summary, output):
+        Exception.__init__(self, summary)
+        self.summary, self.output = summary, output
+
+
+def crash_in_real_code(out):
+    """Return a one-line summary if out shows a panic/fatal error with an x/net non-test frame
+    in the first (crashing) goroutine's stack, else None."""
+    m = re.search(r"^(panic: .*|fatal error: .*)$", out, re.M)
+    if not m:
+        return None
+    tail = out[m.start():]
+    block = tail.split("\n\n", 2)
+    stack = "\n\n".join(block[:2])
+    frames = re.findall(r"^\s+(\S*golang\.org/x/net\S*?|/\S+?)/([\w.-]+\.go):(\d+)", stack, re.M)
+    real = [f for f in re.findall(r"^\s+(\S+\.go):(\d+)", stack, re.M)
+            if not f[0].endswith("_test.go") and ("/x/net" in f[0] or f[0].startswith(REPO + "/") or "/seed-" in f[0] or "/wt-" in f[0])
+            and "/drivers/" not in f[0]]
+    if not real:
+        return None
+    return "%s  at %s:%s" % (m.group(1)[:200], real[0][0], real[0][1])
+
+
 def log(*a):
     print(*a, flush=True)
 
@@ -343,6 +370,9 @@ def run_driver(fam, scratch_dir, mode, args, seed, tier, infile=None, timeout=90
     wall = time.time() - t0
     resf = os.path.join(outdir, "result.json")
     if not os.path.isfile(resf):
+        crash = crash_in_real_code(p.stdout)
+        if crash:
+            raise RealCodeCrash(crash, p.stdout[-6000:])
         raise Infra("go driver produced no result.json (rc=%s):\n%s" % (p.returncode, p.stdout[-4000:]))
     res = json.load(open(resf))
     res["_wall"] = wall
